@@ -520,7 +520,13 @@ def beh_fields(b):
             "sep": c["sep"], "out": c["out"]["kind"], "follow": c.get("follow", False)}
 
 
+def unmangle(behs):
+    """ "e~" in a name of the specification stands for 'e' + COMBINING ACUTE ACCENT (not NFC)"""
+    return [json.loads(json.dumps(b).replace("e~", "e\\u0301")) for b in behs]
+
+
 def replay(run, pid, behs, seed, limit=None):
+    behs = unmangle(behs)
     if limit and len(behs) > limit:
         behs = lib.covering_sample(behs, beh_fields, limit, seed)
     base = tempfile.mkdtemp(prefix="verif_walk_", dir="/dev/shm" if os.path.isdir("/dev/shm") else None)
@@ -749,6 +755,7 @@ def _chunk18(args):
 
 
 def replay_c18(run, behs, seed, limit=None):
+    behs = unmangle(behs)
     if limit and len(behs) > limit:
         behs = lib.covering_sample(behs, beh_fields, limit, seed)
     base = tempfile.mkdtemp(prefix="verif_c18_", dir="/dev/shm" if os.path.isdir("/dev/shm") else None)
